@@ -476,7 +476,7 @@ func indexCommand(cmd *Command) (uniqueLens docLens, termFreqs map[string]fieldT
 }
 
 func (db *Database) collectResults(scores map[int]float64, pq *nlp.ProcessedQuery, options SearchOptions) []SearchResult {
-	results := make([]SearchResult, 0, utils.Min(len(scores), options.Limit*3))
+	results := make([]SearchResult, 0, utils.CapHint(len(scores), options.Limit*3))
 	// Walk the accumulator in document order: map iteration order is random, and the
 	// order in which results are collected decides how equal scores are ranked.
 	docIDs := make([]int, 0, len(scores))
